@@ -35,9 +35,11 @@ case "$name $*" in
   "git branch -vv") [ -f "$D/branches" ] && cat "$D/branches";;
   "git config --get remote.origin.url") if [ -f "$D/remote_url" ]; then cat "$D/remote_url"; else exit 1; fi;;
   "hg paths") [ -f "$D/remote_url" ] && cat "$D/remote_url";;
-  "git tag --list") [ -f "$D/tags" ] && cat "$D/tags";;
+  "git fetch"|"hg pull") : > "$D/fetched";;
+  "git tag --list"|"hg tags")
+    # tags the remote has but the clone has not become visible only after a fetch
+    if [ -f "$D/fetched" ] && [ -f "$D/tags_after_fetch" ]; then cat "$D/tags_after_fetch"; else [ -f "$D/tags" ] && cat "$D/tags"; fi;;
   "git tag --list --merged") [ -f "$D/tags_branch" ] && cat "$D/tags_branch";;
-  "hg tags") [ -f "$D/tags" ] && cat "$D/tags";;
   "hg log --branch . --rev=tag() --template={tags}\n") [ -f "$D/tags_branch" ] && cat "$D/tags_branch";;
   "git status --porcelain") [ -f "$D/status" ] && cat "$D/status";;
   "hg status -umard") [ -f "$D/status" ] && cat "$D/status";;
